@@ -37,59 +37,60 @@ Qed.
 (* ------------------------------------------------------------------------------------------ *)
 (* the attribute loop *)
 
-Lemma gen_lang_facts : lang_cleared_per_key = false /\ lang_by_pointer = true.
-Proof. split; reflexivity. Qed.
-
 Lemma avt_eval_nil : forall a, avt_eval [] a = avt_own a.
 Proof. destruct a; reflexivity. Qed.
 
 Lemma set_lang_set_lang : forall f g k, set_lang f (set_lang g k) = set_lang f k.
 Proof. intros. reflexivity. Qed.
 
+Definition lang_step (l : str) (e : sort_elem) : str := avt_eval (if lang_fresh then [] else l) (se_lang e).
+
 Lemma step_spec : forall l e,
     sort_attr_step (l, []) e =
     match own_key e with
     | None => None
-    | Some k => Some (set_lang (avt_eval l (se_lang e)) k, (avt_eval l (se_lang e), []))
+    | Some k => Some (set_lang (lang_step l e) k, (lang_step l e, []))
     end.
 Proof.
-  intros l e. unfold sort_attr_step, own_key. rewrite (proj1 gen_lang_facts). rewrite avt_eval_nil.
+  intros l e. unfold sort_attr_step, own_key, lang_step. rewrite avt_eval_nil.
   destruct (decode_dtype (avt_own (se_dtype e))); [|reflexivity]. cbv zeta. rewrite avt_eval_nil.
   destruct (decode_order (avt_own (se_order e))); [|reflexivity]. rewrite avt_eval_nil.
   destruct (decode_case (avt_own (se_case e))); reflexivity.
 Qed.
 
-Definition lang_step (l : str) (e : sort_elem) : str := avt_eval l (se_lang e).
+(* the keys the loop produces: the declared ones, each with the language string as it is then *)
+Fixpoint running_keys (l : str) (es : list sort_elem) (oks : list skey) : list skey :=
+  match es, oks with
+  | e :: t, k :: ks => set_lang (lang_step l e) k :: running_keys (lang_step l e) t ks
+  | _, _ => []
+  end.
 
 Lemma loop_spec : forall es l r,
     sort_attrs_loop (l, []) es = r ->
     match r, own_keys es with
-    | Some (ks, fin), Some oks => fin = fold_left lang_step es l /\ forall f, map (set_lang f) ks = map (set_lang f) oks
+    | Some (ks, fin), Some oks => fin = fold_left lang_step es l /\ ks = running_keys l es oks
     | None, None => True
     | _, _ => False
     end.
 Proof.
   induction es as [|e t IH]; intros l r <-.
-  - simpl. split; [reflexivity | intros; reflexivity].
+  - simpl. split; reflexivity.
   - cbn [sort_attrs_loop own_keys]. rewrite step_spec. destruct (own_key e) as [k|].
-    + specialize (IH (avt_eval l (se_lang e)) _ eq_refl).
-      destruct (sort_attrs_loop (avt_eval l (se_lang e), []) t) as [[ks fin]|]; destruct (own_keys t) as [oks|]; try contradiction.
-      * destruct IH as [F M]. cbn. split; [exact F|]. intros f. rewrite M. reflexivity.
+    + specialize (IH (lang_step l e) _ eq_refl).
+      destruct (sort_attrs_loop (lang_step l e, []) t) as [[ks fin]|]; destruct (own_keys t) as [oks|]; try contradiction.
+      * destruct IH as [F M]. cbn. split; [exact F|]. rewrite M. reflexivity.
       * exact I.
     + destruct (own_keys t); exact I.
 Qed.
 
 Lemma final_lang_fold : forall es, final_lang es = fold_left lang_step es [].
-Proof. intros es. unfold final_lang. rewrite (proj1 gen_lang_facts). reflexivity. Qed.
+Proof. reflexivity. Qed.
 
-(* every key is its own except for the language, which is the final content of the scratch string *)
-Theorem sort_attrs_char : forall es,
-    sort_attrs es = option_map (map (set_lang (final_lang es))) (own_keys es).
+Lemma running_keys_set_lang : forall f es l oks, length es = length oks ->
+    map (set_lang f) (running_keys l es oks) = map (set_lang f) oks.
 Proof.
-  intros es. unfold sort_attrs. rewrite (proj2 gen_lang_facts). destruct (sort_attrs_loop ([], []) es) as [[ks fin]|] eqn:EL; pose proof (loop_spec es [] _ EL) as H;
-    destruct (own_keys es) as [oks|]; try contradiction.
-  - destruct H as [F M]. simpl. rewrite final_lang_fold, <- F. rewrite M. reflexivity.
-  - reflexivity.
+  induction es as [|e t IH]; intros l oks H; destruct oks as [|k ks]; simpl in *; try discriminate; try reflexivity.
+  rewrite IH by congruence. reflexivity.
 Qed.
 
 Lemma own_keys_forall2 : forall es oks, own_keys es = Some oks -> Forall2 (fun e k => own_key e = Some k) es oks.
@@ -99,6 +100,10 @@ Proof.
   - destruct (own_key e) eqn:E; [|discriminate]. destruct (own_keys t) eqn:T; [|discriminate].
     inversion H; subst. constructor; [exact E | apply IH; reflexivity].
 Qed.
+
+Lemma Forall2_length : forall A B (R : A -> B -> Prop) l1 l2, Forall2 R l1 l2 -> length l1 = length l2.
+Proof. intros A B R l1 l2 H. induction H; simpl; congruence. Qed.
+Arguments Forall2_length {A B R l1 l2} _.
 
 Lemma own_key_lang : forall e k, own_key e = Some k -> k_lang k = avt_own (se_lang e).
 Proof.
@@ -131,51 +136,105 @@ Proof.
     + intros [E1 E2]. rewrite E2. f_equal. apply set_lang_id. congruence.
 Qed.
 
-(* data-type, order and case-order of each key are its own; errors are those of the keys themselves *)
+(* in every configuration: data-type, order and case-order of each key are its own, and the
+   errors are those of the keys themselves *)
 Theorem key_attrs_other_independent : forall es ks,
     sort_attrs es = Some ks ->
     exists oks, own_keys es = Some oks /\ map (set_lang []) ks = map (set_lang []) oks.
 Proof.
-  intros es ks H. rewrite sort_attrs_char in H. destruct (own_keys es) as [oks|]; [|discriminate].
-  exists oks. split; [reflexivity|]. simpl in H. inversion H. rewrite map_map.
-  apply map_ext. intros k. reflexivity.
+  intros es ks H. unfold sort_attrs in H.
+  destruct (sort_attrs_loop ([], []) es) as [[ks0 fin]|] eqn:EL; [|discriminate].
+  pose proof (loop_spec es [] _ EL) as S. destruct (own_keys es) as [oks|] eqn:EO; [|contradiction].
+  destruct S as [_ M]. exists oks. split; [reflexivity|].
+  pose proof (Forall2_length (own_keys_forall2 es oks EO)) as LEN.
+  revert H. destruct lang_aliased; intros H; injection H as <-.
+  - rewrite map_map. rewrite <- (running_keys_set_lang [] es [] oks LEN). rewrite M. apply map_ext. reflexivity.
+  - rewrite M. apply running_keys_set_lang. exact LEN.
 Qed.
 
 Theorem sort_attrs_error_iff : forall es, sort_attrs es = None <-> own_keys es = None.
-Proof. intros es. rewrite sort_attrs_char. destruct (own_keys es); simpl; split; congruence. Qed.
-
-(* the language every key sorts with is the string the loop leaves behind *)
-Theorem sort_attrs_lang : forall es ks, sort_attrs es = Some ks -> Forall (fun k => k_lang k = final_lang es) ks.
 Proof.
-  intros es ks H. rewrite sort_attrs_char in H. destruct (own_keys es) as [oks|]; [|discriminate].
-  simpl in H. inversion H. apply Forall_forall. intros k Hin. apply in_map_iff in Hin.
-  destruct Hin as (k0 & E & _). subst k. reflexivity.
+  intros es. unfold sort_attrs.
+  destruct (sort_attrs_loop ([], []) es) as [[ks0 fin]|] eqn:EL; pose proof (loop_spec es [] _ EL) as S;
+    destruct (own_keys es) as [oks|]; try contradiction; split; congruence.
 Qed.
 
-(* exact guard: the keys are the declared ones iff the final string is every key's own lang *)
-Theorem key_attrs_independent_partial : forall es oks,
-    own_keys es = Some oks -> (sort_attrs es = Some oks <-> langs_independent es = true).
-Proof.
-  intros es oks H. rewrite sort_attrs_char, H. simpl. unfold langs_independent.
-  rewrite <- (map_set_lang_id_iff (final_lang es) es oks (own_keys_forall2 es oks H)).
-  split; [intros E; inversion E as [E1]; rewrite E1; exact E1 | intros E; rewrite E; reflexivity].
-Qed.
+(* ---- the source as it is: one scratch string, never cleared, kept by pointer ---- *)
+Section SharedLang.
+  Hypothesis FRESH : lang_fresh = false.
+  Hypothesis ALIASED : lang_aliased = true.
 
-Corollary single_key_independent : forall e, langs_independent [e] = true.
-Proof.
-  intros e. unfold langs_independent.
-  assert (F : final_lang [e] = avt_own (se_lang e)) by (destruct e as [l d o c]; destruct l; reflexivity).
-  rewrite F. simpl. rewrite (proj2 (str_eqb_eq _ _) eq_refl). reflexivity.
-Qed.
+  (* every key is its own except for the language, which is the final content of the scratch string *)
+  Theorem sort_attrs_char : forall es,
+      sort_attrs es = option_map (map (set_lang (final_lang es))) (own_keys es).
+  Proof.
+    intros es. unfold sort_attrs. rewrite ALIASED.
+    destruct (sort_attrs_loop ([], []) es) as [[ks fin]|] eqn:EL; pose proof (loop_spec es [] _ EL) as H;
+      destruct (own_keys es) as [oks|] eqn:EO; try contradiction.
+    - destruct H as [F M]. simpl. rewrite final_lang_fold, <- F. rewrite M.
+      rewrite running_keys_set_lang; [reflexivity | apply (Forall2_length (own_keys_forall2 es oks EO))].
+    - reflexivity.
+  Qed.
 
-Lemma fold_absent : forall es l, Forall (fun e => se_lang e = AvtAbsent) es -> fold_left lang_step es l = l.
-Proof.
-  induction es as [|e t IH]; intros l H; simpl; [reflexivity|]. inversion H; subst.
-  unfold lang_step at 2. rewrite H2. simpl. apply IH. assumption.
-Qed.
+  Theorem sort_attrs_lang : forall es ks, sort_attrs es = Some ks -> Forall (fun k => k_lang k = final_lang es) ks.
+  Proof.
+    intros es ks H. rewrite sort_attrs_char in H. destruct (own_keys es) as [oks|]; [|discriminate].
+    simpl in H. inversion H. apply Forall_forall. intros k Hin. apply in_map_iff in Hin.
+    destruct Hin as (k0 & E & _). subst k. reflexivity.
+  Qed.
 
-Corollary no_lang_independent : forall es, Forall (fun e => se_lang e = AvtAbsent) es -> langs_independent es = true.
-Proof.
-  intros es H. unfold langs_independent. rewrite final_lang_fold, fold_absent by exact H.
-  apply forallb_forall. intros e Hin. rewrite Forall_forall in H. rewrite (H e Hin). reflexivity.
-Qed.
+  (* exact guard: the keys are the declared ones iff the final string is every key's own lang *)
+  Theorem key_attrs_independent_partial : forall es oks,
+      own_keys es = Some oks -> (sort_attrs es = Some oks <-> langs_independent es = true).
+  Proof.
+    intros es oks H. rewrite sort_attrs_char, H. simpl. unfold langs_independent.
+    rewrite <- (map_set_lang_id_iff (final_lang es) es oks (own_keys_forall2 es oks H)).
+    split; [intros E; inversion E as [E1]; rewrite E1; exact E1 | intros E; rewrite E; reflexivity].
+  Qed.
+
+  Lemma lang_step_shared : forall l e, lang_step l e = avt_eval l (se_lang e).
+  Proof. intros. unfold lang_step. rewrite FRESH. reflexivity. Qed.
+
+  Corollary single_key_independent : forall e, langs_independent [e] = true.
+  Proof.
+    intros e. unfold langs_independent.
+    assert (F : final_lang [e] = avt_own (se_lang e)).
+    { rewrite final_lang_fold. simpl. rewrite lang_step_shared. apply avt_eval_nil. }
+    rewrite F. simpl. rewrite (proj2 (str_eqb_eq _ _) eq_refl). reflexivity.
+  Qed.
+
+  Lemma fold_absent : forall es l, Forall (fun e => se_lang e = AvtAbsent) es -> fold_left lang_step es l = l.
+  Proof.
+    induction es as [|e t IH]; intros l H; simpl; [reflexivity|]. inversion H; subst.
+    rewrite lang_step_shared. rewrite H2. simpl. apply IH. assumption.
+  Qed.
+
+  Corollary no_lang_independent : forall es, Forall (fun e => se_lang e = AvtAbsent) es -> langs_independent es = true.
+  Proof.
+    intros es H. unfold langs_independent. rewrite final_lang_fold, fold_absent by exact H.
+    apply forallb_forall. intros e Hin. rewrite Forall_forall in H. rewrite (H e Hin). reflexivity.
+  Qed.
+End SharedLang.
+
+(* ---- a source in which every key has its own, initially empty, language string ---- *)
+Section OwnLang.
+  Hypothesis FRESH : lang_fresh = true.
+  Hypothesis NOT_ALIASED : lang_aliased = false.
+
+  Lemma running_keys_own : forall es l oks,
+      Forall2 (fun e k => own_key e = Some k) es oks -> running_keys l es oks = oks.
+  Proof.
+    intros es l oks H. revert l. induction H as [|e k es' oks' HK HR IH]; intros l; simpl; [reflexivity|].
+    rewrite IH. f_equal. apply set_lang_id. unfold lang_step. rewrite FRESH, avt_eval_nil.
+    apply own_key_lang. exact HK.
+  Qed.
+
+  Theorem key_attrs_independent_full : forall es, sort_attrs es = own_keys es.
+  Proof.
+    intros es. unfold sort_attrs. rewrite NOT_ALIASED.
+    destruct (sort_attrs_loop ([], []) es) as [[ks fin]|] eqn:EL; pose proof (loop_spec es [] _ EL) as H;
+      destruct (own_keys es) as [oks|] eqn:EO; try contradiction.
+    - destruct H as [_ M]. rewrite M. rewrite running_keys_own; [reflexivity | apply own_keys_forall2; exact EO].
+    - reflexivity.
+  Qed.
+End OwnLang.
